@@ -266,6 +266,11 @@ def rules_stabilization(run, ids=('C02.3', 'C02.4', 'C02.5')):
                         ca = q.canon_atom(ifs[0]) if len(ifs) == 1 else None
                         if ca and ca[0] == 'in' and not ca[3] and derives(ast.parse(ca[2], mode='eval').body)[0]:
                             found = True
+                            # the completion step is taken whenever something is missing: the list of missing children is tested for emptiness only
+                            holders = [y.id for y in exprs if isinstance(strip_cast(y), ast.Name) and any(strip_cast(v_) is x for st_, v_ in q.assigned_value(F, strip_cast(y).id))]
+                            about = [a for a in guard_atoms(c) if any(h in a[1] or h in a[2] for h in holders)]
+                            run.check(not holders or about == [('truthy', holders[0], '')], r, fi.short, 'completion whenever a child of an active orthogonal state is inactive',
+                                      'the completion step is conditional on %s: an orthogonal state with a single inactive region stays incomplete' % (about or 'nothing'), c)
     run.check(found, r, fi.short, 'orthogonal completion for states entered through one region',
               'only leaves (or a narrowed subset of the active states) are examined for default entry: an orthogonal state entered through a transition '
               'that targets a state nested in one of its regions keeps its other regions inactive (illegal configuration)', F)
